@@ -55,6 +55,7 @@ type InstCase struct {
 	StubPick   []int // per call: serve the k-th largest STH not above the limit (0 = largest)
 	NilStorage bool  // mirror without an STHStorage (the default one always fails)
 	Ops        []InstOp
+	Verbosity  int // process-wide klog -v level during set-up and requests
 }
 
 func genInst(t *rapid.T) InstCase {
@@ -110,6 +111,7 @@ func genInst(t *rapid.T) InstCase {
 		}
 	}
 	c.Ops = append(c.Ops, InstOp{Kind: "sth"})
+	c.Verbosity = rapid.SampledFrom([]int{0, 0, 0, 1, 2, 3}).Draw(t, "klog-v")
 	return c
 }
 
@@ -181,6 +183,9 @@ func serve(h http.Handler, method, rfcPath string) *httptest.ResponseRecorder {
 func checkInst(t *testing.T, c InstCase) (v harness.Verdict) {
 	ct.AllowVerificationWithNonCompliantKeys = false
 	resetSignatures()
+	harness.SetKlogVerbosity(c.Verbosity)
+	defer harness.SetKlogVerbosity(0)
+	v.Class(fmt.Sprintf("klog-v=%d", c.Verbosity))
 	l := &c.Log
 	v.NonTrivial = true
 	v.Class("log:" + kindOfLog(l))
